@@ -592,7 +592,7 @@ def dispatch_table(ctx, info, world):
             if a[0] == "truthy" and "getControlState()" in str(a[-1]):
                 m = re.search(r"getControlState\(\)\[(\d)\]", str(a[-1]))
                 if m:
-                    flags[int(m.group(1))] = v
+                    flags.setdefault(int(m.group(1)), v)  # the answers of the first query: they select disp[0]
         for val in VALUATIONS:
             if all(val[i] == v for i, v in flags.items()):
                 table.setdefault(val, set()).add(disp[0])
